@@ -55,11 +55,13 @@ def extra_guards(w, h, block):
     return out
 
 
-def run(ctx, w):
+def run(ctx, w, embedded=False):
     S = shared.screen(w)
     R = shared.roles(w)
     E = w.E
     cur, sc, psc = R["cursor"], R["saved_ctx"], R["parked_saved_ctx"]
+    if embedded:
+        ctx = _Quiet(ctx)
     ctx.explanation = ("Save/restore is decided as a field pairing extracted from the save and restore routines (inverse bijection over every field of the saved-context "
                        "type), call-graph rules for the eight spellings, swap discipline for the per-screen contexts, a frame rule and the clamp of the re-layout routine.")
     ctx.decided = ["S1 save writes every field of the context from its live counterpart; restore writes each counterpart back from that field and nothing else", "S2 all four save and four restore spellings reach those routines unconditionally",
@@ -292,3 +294,19 @@ def clamp_rule(ctx, w, S, R):
     # every screen switch is followed by the re-layout (so the context swapped in gets clamped): C02.R3 / C16.P7
     from rules import c16
     c16.relayout_after_switch(ctx, w, S, R, rule="S5b")
+
+
+class _Quiet:
+    """Proxy that lets another property reuse these rules without taking over
+    its explanation / decided texts."""
+
+    def __init__(self, ctx):
+        object.__setattr__(self, "_c", ctx)
+
+    def __getattr__(self, k):
+        return getattr(self._c, k)
+
+    def __setattr__(self, k, v):
+        if k in ("explanation", "decided", "not_decided", "exhaustive"):
+            return
+        setattr(self._c, k, v)
